@@ -289,7 +289,8 @@ static int recv_events(m_ctx_t *c, int timeout) {
                         /* Stop polling on it right now: it stays alive as long as its event does */
                         poll_set_new_evt(&c->ppriv, p, RM);
                         m_bst_remove(mod->srcs[p->type], p);
-                    } else {
+                    } else if (m_map_get(mod->subscriptions, p->ps_src.topic) == p) {
+                        /* Only if it was not replaced, meanwhile, by a new subscription on the same topic */
                         m_map_remove(mod->subscriptions, p->ps_src.topic);
                     }
                 }
